@@ -37,7 +37,7 @@ PROPERTY = "C14"
 LEVEL = "exploration"
 RULE = ("Option product version {2,3} x key {none, DISCARD, bare blob, type-prefixed blob, wrong-type prefix, "
         "blob with CR/LF} x detach x single_hop x auth {none, AuthBasic with 0..3 named clients with/without "
-        "tokens} x 1..3 port mappings (int, (int,int), (int,'unix:/p'), (int,'ip:port'), 'virt target' string) "
+        "tokens} x 1..3 port mappings (int, (int,int), (int,'unix:/p'), (int,'ip:port'), 'virt target' string; unix paths also with '..', '.', '//', trailing components) "
         "x what the bootstrapped TorConfig knows about Tor's single-hop options {not listed, 0/1 x 0/1} "
         "through EphemeralOnionService.create / EphemeralAuthenticatedOnionService.create / "
         "Tor.create_onion_service over the real control protocol; the ADD_ONION / DEL_ONION lines are decoded by "
@@ -46,7 +46,7 @@ RULE = ("Option product version {2,3} x key {none, DISCARD, bare blob, type-pref
         "requested, or auth with >=1 client, or >=2 port mappings; distinct = distinct canonical JSON.")
 ASSUMPTIONS = [
     "key blobs are base64 text (what Tor hands out); client names follow control-spec (1-16 chars of A-Za-z0-9+-_), unique within one request",
-    "port targets are loopback/private numeric IPv4 'ip:port', 'localhost:port' or 'unix:/path' without spaces or commas; IPv6 targets are not generated",
+    "port targets are loopback/private numeric IPv4 'ip:port', 'localhost:port' or 'unix:/path' (absolute, without spaces or commas; about half of the generated paths contain '..', '.', '//' or trailing components and must reach Tor byte for byte; relative socket paths are not generated); IPv6 targets are not generated",
     "for an int port spec only the virtual port is requested: any 127.0.0.1/localhost target with a valid port is accepted",
     "a Port= target that is a bare port number is read as Tor reads it (127.0.0.1:port); Port order and repeated Flags= arguments are not significant; keywords and flag names are case-insensitive as in Tor",
     "version 2 with no key may ask for NEW:BEST or NEW:RSA1024; version 3 must ask for NEW:ED25519-V3",
@@ -401,6 +401,9 @@ def drive_create(case):
               "ports:%d" % len(case["ports"]))
     for p in case["ports"]:
         res.label("port-form:" + p["form"])
+        upath = p.get("path") or (p["target"][5:] if p.get("target", "").startswith("unix:") else None)
+        if upath is not None and NON_NORMAL(upath):
+            res.label("unix-path-not-normalised:" + p["form"])
     if auth is not None:
         res.label("auth-clients:%d" % len(auth))
         if any(tok is None for _, tok in auth) and any(tok is not None for _, tok in auth):
@@ -450,7 +453,12 @@ def keys(version, for_auth):
 VIRT = st.one_of(st.sampled_from([80, 443, 22, 1, 65535, 8080]), st.integers(1, 65535))
 LOCAL = st.one_of(st.sampled_from([80, 8080, 1, 65535]), st.integers(1, 65535))
 IPS = st.sampled_from(["127.0.0.1", "127.0.0.2", "10.0.0.5", "192.168.1.2", "172.16.3.4"])
-PATHS = st.sampled_from(["/tmp/sock", "/var/run/tor/web.sock", "/run/x", "/a/b-c_d.e"])
+# absolute socket paths; half of them NOT normalised ('..', '.', '//', trailing components): the path names a
+# socket for Tor to connect to and must reach Tor byte for byte (with symlinks a collapsed path is another socket)
+PATHS = st.sampled_from(["/tmp/sock", "/var/run/tor/web.sock", "/run/x", "/a/b-c_d.e",
+                         "/srv/app/current/../shared/web.sock", "/a/./b.sock", "/a//b.sock", "//run/x.sock",
+                         "/run/tor/./../tor/s.sock", "/a/b.sock/.", "/a/b/../", "/x/../../y.sock"])
+NON_NORMAL = lambda p: __import__("posixpath").normpath(p) != p
 
 
 def port_specs():
@@ -499,10 +507,10 @@ GRID_PORTS = [
     [{"form": "unix", "virt": 443, "path": "/var/run/tor/web.sock"}],
     [{"form": "ip", "virt": 22, "target": "192.168.1.2:2222"}],
     [{"form": "str", "virt": 80, "target": "127.0.0.1:8080"}],
-    [{"form": "str", "virt": 80, "target": "unix:/tmp/sock"}, {"form": "int", "virt": 443}],
+    [{"form": "str", "virt": 80, "target": "unix:/tmp//app/./sock"}, {"form": "int", "virt": 443}],
     [{"form": "pair", "virt": 80, "local": 80}, {"form": "pair", "virt": 80, "local": 81}],
     [{"form": "int", "virt": 80}, {"form": "ip", "virt": 81, "target": "10.0.0.5:81"},
-     {"form": "unix", "virt": 82, "path": "/run/x"}],
+     {"form": "unix", "virt": 82, "path": "/run/tor/current/../x"}],
 ]
 GRID_AUTH = [
     None,
@@ -703,6 +711,10 @@ MUTANTS = [
     ("three-flags-joined-by-space", "txtorcon/onion.py",
      "        cmd += ' Flags={}'.format(','.join(flags))",
      "        cmd += ' Flags={}'.format((',' if len(flags) < 3 else ' ').join(flags))"),
+    ("unix-target-path-normalised", "txtorcon/onion.py",
+     "        cmd += ' Port={},{}'.format(*port.split(' ', 1))",
+     "        cmd += ' Port={},{}'.format(*[(('unix:' + os.path.normpath(x[5:])) if x.startswith('unix:') else x)\n"
+     "                                      for x in port.split(' ', 1)])"),
     ("only-first-port", "txtorcon/onion.py",
      "    for port in onion._ports:\n        cmd += ' Port=",
      "    for port in onion._ports[:1]:\n        cmd += ' Port="),
